@@ -1,7 +1,9 @@
-use super::{Felt, FieldElement, StackInputs, StackOutputs, ONE, STACK_TRACE_WIDTH, ZERO};
+use super::{
+    ExecutionError, Felt, FieldElement, StackInputs, StackOutputs, ONE, STACK_TRACE_WIDTH, ZERO,
+};
 use crate::utils::collections::*;
 use core::cmp;
-use vm_core::{stack::STACK_TOP_SIZE, Word, WORD_SIZE};
+use vm_core::{errors::OutputError, stack::STACK_TOP_SIZE, Word, WORD_SIZE};
 
 mod trace;
 use trace::StackTrace;
@@ -139,12 +141,18 @@ impl Stack {
 
     /// Returns [StackOutputs] consisting of all values on the stack and all addresses in the
     /// overflow table that are required to rebuild the rows in the overflow table.
-    pub fn build_stack_outputs(&self) -> StackOutputs {
+    ///
+    /// # Errors
+    /// Returns an error if the stack holds more elements than [StackOutputs] can represent.
+    pub fn build_stack_outputs(&self) -> Result<StackOutputs, ExecutionError> {
         let mut stack_items = Vec::with_capacity(self.active_depth);
         self.trace.append_state_into(&mut stack_items, self.clk);
         self.overflow.append_into(&mut stack_items);
-        StackOutputs::from_elements(stack_items, self.overflow.get_addrs())
-            .expect("processor stack handling logic is valid")
+        StackOutputs::from_elements(stack_items, self.overflow.get_addrs()).map_err(|err| match err
+        {
+            OutputError::OutputSizeTooBig(size) => ExecutionError::OutputStackOverflow(size),
+            err => panic!("processor stack handling logic is valid: {err}"),
+        })
     }
 
     // TRACE ACCESSORS AND MUTATORS
